@@ -52,6 +52,12 @@ def main():
                 if rel.startswith("examples/"):
                     dst = os.path.join(CONFIRM, rel)
                     kind = "example"
+                elif os.path.basename(f) == "mod.rs" and os.path.dirname(rel):
+                    # support module of a demo (tests/<dir>/mod.rs): copied, not run
+                    dst = os.path.join(CONFIRM, "tests", os.path.basename(os.path.dirname(rel)), "mod.rs")
+                    os.makedirs(os.path.dirname(dst), exist_ok=True)
+                    shutil.copy(os.path.join(root, f), dst)
+                    continue
                 else:
                     dst = os.path.join(CONFIRM, "tests", os.path.basename(f))
                     kind = "test"
